@@ -79,6 +79,14 @@ def classify(events, v):
         sig["del_zero"] = e.get("res") == 0 and op.get("t") == "del"
         sig["read"] = op.get("t") in ("get", "hget", "llen")
         return sig, "answer %s to %s cannot be placed in any linearization" % (e.get("res"), json.dumps(op))
+    if e.get("ev") == "replayed":
+        sig["class"] = "replay-drops-wal-entries"
+        return sig, ("node %s restarted with raft last index %s although its WAL returned entries up to %s: entries above "
+                     "the persisted commit index were dropped at replay" % (e.get("n"), e.get("raft_last"), e.get("wal_last")))
+    if e.get("ev") == "published":
+        sig["class"] = "publish-before-save"
+        return sig, ("node %s handed entry %s to the apply loop while the largest index saved to its WAL was %s"
+                     % (e.get("n"), e.get("pub"), e.get("saved")))
     if e.get("ev") == "sent":
         sig["class"] = "send-before-persist"
         return sig, ("node %s: processReady sent the messages of a Ready that changes term/vote before persisting it, and it was "
